@@ -231,12 +231,15 @@ def r4_empty_agreement(ctx):
         and all(isinstance(s, ast.Pass) for s in ifs[0].body)
     yield Ob('x12xml_simple:x12xml_simple.seg skips exactly not-used or empty elements', ok, ctx.floc(seg, ifs[0]), '' if ok else 'skip predicate is %s' % txt)
     # loop covers every element position of the data
-    try:
-        rng = [A.ev(a, {'seg_data': (0,) * 4}) for a in lp.iter.args]
-        okr = list(range(*rng)) == [0, 1, 2, 3]
-    except Exception:
-        okr = False
-    yield Ob('x12xml_simple:x12xml_simple.seg visits every element position', okr, ctx.floc(seg, lp), '' if okr else 'range changed')
+    okr = True
+    for nchild, want in ((9, [0, 1, 2, 3]), (4, [0, 1, 2, 3]), (2, [0, 1])):
+        try:
+            rng = [A.ev(a, {'seg_data': (0,) * 4, 'seg_node.get_child_count()': nchild}) for a in lp.iter.args]
+            okr = okr and list(range(*rng)) == want
+        except Exception:
+            okr = False
+    yield Ob('x12xml_simple:x12xml_simple.seg visits every element position the map defines', okr, ctx.floc(seg, lp),
+             '' if okr else 'element range %s skips or exceeds positions' % norm(lp.iter))
     gs = ctx.func('xmlx12_simple', 'get_segment')
     conds = [norm(n.test) for n in ast.walk(gs) if isinstance(n, ast.If) and '.text' in norm(n.test)]
     ok = len(conds) == 2 and all("!= ''" in c for c in conds)
